@@ -1736,11 +1736,11 @@ func (tx *SQLTx) doUpsert(ctx context.Context, pkEncVals []byte, valuesByColID m
 			continue
 		}
 
+		// an entry whose key does not change is still rewritten: readers of this
+		// transaction take the row's columns from the entry they scan
+		reusable := false
 		if reusableIndexEntries != nil {
-			_, reusable := reusableIndexEntries[index.id]
-			if reusable {
-				continue
-			}
+			_, reusable = reusableIndexEntries[index.id]
 		}
 
 		encodedValues := make([][]byte, 2+len(index.cols))
@@ -1776,7 +1776,7 @@ func (tx *SQLTx) doUpsert(ctx context.Context, pkEncVals []byte, valuesByColID m
 		smkey := MapKey(tx.sqlPrefix(), MappedPrefix, encodedValues...)
 
 		// no other equivalent entry should be already indexed
-		if index.IsUnique() {
+		if index.IsUnique() && !reusable {
 			exists, err := tx.existsLiveEntryWithPrefix(ctx, smkey)
 			if err != nil {
 				return err
@@ -1786,7 +1786,9 @@ func (tx *SQLTx) doUpsert(ctx context.Context, pkEncVals []byte, valuesByColID m
 			}
 		}
 
-		err = tx.setTransient(smkey, nil, encodedRowValue) // only-indexable
+		// the in-transaction index entry carries the primary key like the committed one
+		// (rows sharing the indexed values must not overwrite each other)
+		err = tx.setTransient(MapKey(tx.sqlPrefix(), MappedPrefix, append(encodedValues, pkEncVals)...), nil, encodedRowValue) // only-indexable
 		if err != nil {
 			return err
 		}
@@ -1934,7 +1936,7 @@ func (tx *SQLTx) deprecateIndexEntries(
 
 			encVal, _, _ := EncodeValueAsKey(currVal, col.colType, col.MaxLen())
 
-			encodedValues[i+3] = encVal
+			encodedValues[i+2] = encVal
 		}
 
 		// mark existent index entry as deleted
@@ -1945,7 +1947,7 @@ func (tx *SQLTx) deprecateIndexEntries(
 
 			md.AsDeleted(true)
 
-			err = tx.set(MapKey(tx.sqlPrefix(), MappedPrefix, encodedValues...), md, encodedRowValue)
+			err = tx.setTransient(MapKey(tx.sqlPrefix(), MappedPrefix, encodedValues...), md, encodedRowValue)
 			if err != nil {
 				return nil, err
 			}
@@ -2304,6 +2306,38 @@ func (tx *SQLTx) deleteIndexEntries(pkEncVals []byte, valuesByColID map[uint32]T
 		md.AsDeleted(true)
 
 		err := tx.set(MapKey(tx.sqlPrefix(), RowPrefix, encodedValues...), md, encodedRowValue)
+		if err != nil {
+			return err
+		}
+	}
+
+	// readers of this transaction must not find the row through its secondary indexes either
+	for _, index := range table.indexes {
+		if index.IsPrimary() {
+			continue
+		}
+
+		encodedValues := make([][]byte, 2+len(index.cols)+1)
+		encodedValues[0] = EncodeID(table.id)
+		encodedValues[1] = EncodeID(index.id)
+		encodedValues[len(encodedValues)-1] = pkEncVals
+
+		for i, col := range index.cols {
+			val, specified := valuesByColID[col.id]
+			if !specified {
+				val = &NullValue{t: col.colType}
+			}
+
+			encVal, _, _ := EncodeValueAsKey(val, col.colType, col.MaxLen())
+
+			encodedValues[i+2] = encVal
+		}
+
+		md := store.NewKVMetadata()
+
+		md.AsDeleted(true)
+
+		err := tx.setTransient(MapKey(tx.sqlPrefix(), MappedPrefix, encodedValues...), md, encodedRowValue)
 		if err != nil {
 			return err
 		}
